@@ -303,6 +303,10 @@ func (m *AgglayerModel) header(c *AgCert) *v1nodetypes.CertificateHeader {
 	if m.NoPrevLER {
 		// older Agglayers do not report the previous local exit root in a certificate header
 		h.PrevLocalExitRoot = nil
+		if c.Seq%2 == 1 {
+			// the other wire shape of "not reported": the optional message is present and its bytes are empty
+			h.PrevLocalExitRoot = &v1types.FixedBytes32{}
+		}
 	}
 	if c.Status == agInError {
 		h.Error = &v1nodetypes.CertificateStatusError{Message: []byte("model: certificate in error")}
